@@ -207,7 +207,10 @@ def python_half(out, tier, world, sessions=None):
     libs = lib_results(world, sessions, py_events)
     tp = os.path.join(C.WORK, "traces", f"c19_py_{tier}.ndjson")
     C.write_ndjson(tp, assemble(sessions, libs, py_events, f"driver exit {rc}: {err[-300:]}" if rc != 0 else ""))
-    events, rej = C.validate_trace(out, "Trace_Bindings", "Trace_Bindings.cfg", tp, "C19/python", key="sess", signature_fn=signature, timeout=40000)
+    if tier == "thorough":
+        events, rej = C.validate_trace_parallel(out, "Trace_Bindings", "Trace_Bindings.cfg", tp, "C19/python", key="sess", header_kinds=(), n=10, signature_fn=signature)
+    else:
+        events, rej = C.validate_trace(out, "Trace_Bindings", "Trace_Bindings.cfg", tp, "C19/python", key="sess", signature_fn=signature, timeout=40000)
     calls = [e for e in events if e["ev"] == "call"]
     out.cov["traces_validated_against_impl"] += len(sessions)
     out.cov["evaluations"] += len(calls)
@@ -335,7 +338,10 @@ def cli_half(out, tier, world, cli, inputs=None, label="cli", only=None):
             events.append({"ev": "cli", "run": rid, "cfg": cfg, "args": r["args"], "input": cps(r["text"]), "stdout": res["stdout"], "exit": res["exit"], "stderr": res["stderr"]})
     tp = os.path.join(C.WORK, "traces", f"c19_{label}_{tier}.ndjson")
     C.write_ndjson(tp, events)
-    evs, rej = C.validate_trace(out, "Trace_Cli", "Trace_Cli.cfg", tp, "C19/cli", key="run", signature_fn=signature, timeout=40000)
+    if tier == "thorough":
+        evs, rej = C.validate_trace_parallel(out, "Trace_Cli", "Trace_Cli.cfg", tp, "C19/cli", key="run", header_kinds=(), n=10, signature_fn=signature)
+    else:
+        evs, rej = C.validate_trace(out, "Trace_Cli", "Trace_Cli.cfg", tp, "C19/cli", key="run", signature_fn=signature, timeout=40000)
     n = sum(1 for e in evs if e["ev"] == "cli")
     out.cov["traces_validated_against_impl"] += n
     out.cov["evaluations"] += n
